@@ -830,7 +830,7 @@ class RandomConcreteBackend(ConcreteBackend):
         if maybe_nan and self.rnd.random() < 0.15:
             v = float("nan")
         self.values[name] = v
-        return v
+        return self.np.float64(v)
 
     def pynum(self, name, nonneg=False):
         v = float(self.rnd.choice([0, 0, 1, 2, 3, 5, 0.5, 2.25]))
